@@ -107,6 +107,8 @@ def adapter(U, cname, checked_spec=None):
     args = []
     is_ctor = f.kind == "CXXConstructorDecl"
     cp = cparams[1:] if is_ctor else cparams
+    if len(cp) == len(wpt) + 1 and cp[0][0] == "self":
+        cp = cp[1:]      # member of a stateless function object the wrapper creates itself (std::less<...>()(a, b))
     if len(cp) != len(wpt):
         raise ExtractionBreak("wrapper %s has %d params, extracted function has %d" % (cname, len(wpt), len(cp)))
     for (pn, pt), wt in zip(cp, wpt):
